@@ -34,6 +34,7 @@ import json
 import os
 import posixpath
 import random
+import time
 from typing import Any
 
 from sfv.rt.loop import run_controlled
@@ -461,7 +462,17 @@ def _upstream_of_loops(spec: dict) -> set[int]:
 
 
 def choose_failure(rng: random.Random, spec: dict, escape_prob: float = 0.3, loop_upstream_prob: float = 0.12,
-                   job_prob: float = 0.5) -> dict | None:
+                   job_prob: float = 0.5, no_outputs_prob: float = 0.15) -> dict | None:
+    """`_choose_failure`; in addition some of the failing workflows declare no output port at all (`no_outputs`): the
+    executor then only awaits the step tasks, and nobody but the failing step's own task closes it"""
+    out = _choose_failure(rng, spec, escape_prob, loop_upstream_prob, job_prob)
+    if out is not None and rng.random() < no_outputs_prob:
+        out["no_outputs"] = True
+    return out
+
+
+def _choose_failure(rng: random.Random, spec: dict, escape_prob: float = 0.3, loop_upstream_prob: float = 0.12,
+                    job_prob: float = 0.5) -> dict | None:
     """copy of the spec with one injected failure:
     * a transformer raises on one of the tags it processes (`Transformer.run` catches it: the step ends FAILED and the
       failure travels as TerminationToken(FAILED)), or
@@ -704,11 +715,51 @@ def run_spec(spec: dict, seed: int, workdir: str, timeout: float = 60.0, shuffle
                     result.setdefault("unterminated_at_exit", sorted(n for n, st in workflow.steps.items() if not st.terminated))
 
             run_task = asyncio.create_task(runner())
-            done, _ = await asyncio.wait({run_task}, timeout=timeout)
+
+            def workflow_tasks():
+                return [t for t in asyncio.all_tasks() if t is not me and not t.done() and t is not run_task
+                        and not _is_infrastructure(t)]
+
+            def progress_mark():
+                # anything that changes while the workflow is still working: tokens on the ports, terminated steps, finished tasks
+                return (sum(len(p.token_list) for p in workflow.ports.values()),
+                        sum(1 for st in workflow.steps.values() if st.terminated), len(workflow_tasks()))
+
+            # A hang verdict is "run() has not finished AND the state of the workflow did not change for a whole window",
+            # never elapsed time alone: on a loaded machine a healthy run is slow but keeps moving. The window is the nominal
+            # timeout scaled by the machine load; when every step is terminated and no step task is pending (run() is about
+            # to return: it only waits for its own database update) the window is three times as long.
+            window = timeout * load_factor()
+            t_start = time.monotonic()
+            mark, t_mark, waits = progress_mark(), t_start, 0
+            while True:
+                done, _ = await asyncio.wait({run_task}, timeout=min(1.0, window / 8))
+                if done:
+                    break
+                now, m = time.monotonic(), progress_mark()
+                if m != mark:
+                    mark, t_mark = m, now
+                idle_state = all(st.terminated for st in workflow.steps.values()) and not workflow_tasks()
+                if now - t_mark >= min(window, 5.0) and any(_awaits_itself(t) for t in asyncio.all_tasks() if not t.done()):
+                    break       # dead-lock by inspection (see below): no need to wait for the whole window
+                if now - t_mark >= (3 * window if idle_state else window) or now - t_start >= 6 * window:
+                    break
+            result["watchdog"] = {"window_s": round(window, 1), "waited_s": round(time.monotonic() - t_start, 1),
+                                  "quiet_s": round(time.monotonic() - t_mark, 1)}
             if not done:
                 result["unterminated_at_exit"] = sorted(n for n, st in workflow.steps.items() if not st.terminated)
-            if not done:
-                result["outcome"] = {"kind": "hang", "detail": f"executor.run() did not finish in {timeout}s"}
+                # a dead-lock by inspection: a task that waits for a gather() of which it is itself a member can never finish
+                # (and cannot be cancelled: Task.cancel() recurses through the gather back into the task)
+                selfw = [t for t in asyncio.all_tasks() if not t.done() and _awaits_itself(t)]
+                result["self_awaiting_tasks"] = sorted(_task_label(t) for t in selfw)
+                if selfw:
+                    result["known_deadlock_state"] = True
+                quiet = time.monotonic() - t_mark
+                result["outcome"] = {"kind": "hang", "detail": (
+                    f"executor.run() did not finish: no change of the workflow state (tokens, terminated steps, pending tasks) for "
+                    f"{quiet:.0f}s (window {window:.0f}s, total {time.monotonic() - t_start:.0f}s)"
+                    + (f"; tasks awaiting their own cancellation: {result['self_awaiting_tasks']}" if selfw else "")
+                    + ("; every step is terminated and no step task is pending" if not result["unterminated_at_exit"] and not workflow_tasks() else ""))}
             elif run_task.cancelled():
                 result["outcome"] = {"kind": "raise", "detail": "CancelledError"}
             elif run_task.exception() is not None:
@@ -741,9 +792,6 @@ def run_spec(spec: dict, seed: int, workdir: str, timeout: float = 60.0, shuffle
                         result["known_deadlock_state"] = True
 
             # let finishing tasks settle (the last `_set_status` of a step is a database await served by a thread)
-            def workflow_tasks():
-                return [t for t in asyncio.all_tasks() if t is not me and not t.done() and t is not run_task
-                        and not _is_infrastructure(t)]
             for _ in range(30):
                 await asyncio.sleep(0)
             waited = 0.0
@@ -778,7 +826,16 @@ def run_spec(spec: dict, seed: int, workdir: str, timeout: float = 60.0, shuffle
             result["outputs"] = sorted(workflow.output_ports)
             result["db"] = await _dump_db(context)
             if not done:
-                run_task.cancel()
+                for t in [t for t in asyncio.all_tasks() if not t.done() and _awaits_itself(t)]:
+                    # break the cycle (plain Future.cancel: the gather's own cancel() would recurse), else no event loop
+                    # shutdown ever completes and the verdict above would be lost with the worker process
+                    asyncio.Future.cancel(t._fut_waiter)
+                for _ in range(5):
+                    await asyncio.sleep(0)
+                try:
+                    run_task.cancel()
+                except RecursionError:
+                    pass
         finally:
             try:
                 await asyncio.wait_for(context.close(), 10)
@@ -786,9 +843,12 @@ def run_spec(spec: dict, seed: int, workdir: str, timeout: float = 60.0, shuffle
                 pass
 
     try:
-        run_controlled(main, seed, timeout=timeout + 30, shuffle=shuffle)
+        run_controlled(main, seed, timeout=6 * timeout * load_factor() + 60, shuffle=shuffle)
     except (TimeoutError, asyncio.TimeoutError):
-        result.setdefault("outcome", {"kind": "hang", "detail": "harness watchdog"})
+        # the bound around the WHOLE harness coroutine (build, run, inspection, context shutdown) fired before the watchdog on
+        # executor.run() reached a verdict: nothing is known about the implementation => a harness note, never a violation
+        result.setdefault("outcome", {"kind": "harness-error", "detail": "harness bound reached before the run gave a verdict "
+                                      f"(build / inspection / shutdown too slow; load {os.getloadavg()[0]:.0f})"})
     except Exception as e:  # noqa: BLE001
         result.setdefault("outcome", {"kind": "harness-error", "detail": f"{type(e).__name__}: {e}"})
     return result
@@ -802,6 +862,19 @@ def _jsonable(v):
     if isinstance(v, dict):
         return {str(k): _jsonable(x) for k, x in v.items()}
     return repr(v)
+
+
+def load_factor() -> float:
+    """how much slower than an idle machine this one probably is: runnable processes per core, between 1 and 3"""
+    try:
+        return max(1.0, min(3.0, os.getloadavg()[0] / (os.cpu_count() or 1)))
+    except OSError:
+        return 1.0
+
+
+def _awaits_itself(t: asyncio.Task) -> bool:
+    fut = getattr(t, "_fut_waiter", None)
+    return fut is not None and any(c is t for c in getattr(fut, "_children", ()) or ())
 
 
 def _task_label(t: asyncio.Task) -> str:
